@@ -80,6 +80,7 @@ pub enum RK {
     Burst { m: S, a: Src },
     SelfAbort { a: Src, m: Option<S>, handle: u16 },
     HandOff { a: Src, b: Src, c: S },
+    JoinSpawn { a: Src, b: Src, n: S },
     StreamUntil { a: Src, b: Src },
     /// req a -> event; then spawns (req b with arg = value -> event)
     ChainLink { a: Src, next: Option<S> },
@@ -510,6 +511,12 @@ impl RCmd {
                     cx.eff(&mut a, Kind::Once, 0);
                     t.kind = RK::SelfAbort { a, m: None, handle: 2000 + s.id };
                 }
+                P::JoinSpawn(s, u, n) => {
+                    let (mut a, mut b) = (Src::new(s), Src::new(u));
+                    cx.eff(&mut a, Kind::Once, 0);
+                    cx.eff(&mut b, Kind::Once, 0);
+                    t.kind = RK::JoinSpawn { a, b, n };
+                }
                 P::HandOff(s, u, c) => {
                     let (mut a, mut b) = (Src::new(s), Src::new(u));
                     cx.eff(&mut a, Kind::Once, 0);
@@ -767,6 +774,22 @@ impl RCmd {
                 St::G => Run::Finished,
                 _ => Run::Pending,
             },
+            RK::JoinSpawn { a, b, n } => {
+                if let St::V(w) = b.st {
+                    // the second branch runs on: it spawns, whatever becomes of the join
+                    b.st = St::X;
+                    let n = *n;
+                    self.spawnq.push(task(RK::NotifyArg { m: n, arg: w }));
+                }
+                if let (St::V(v), St::X) = (a.st, b.st) {
+                    cx.got(a.site, v);
+                    return Run::Finished;
+                }
+                if !a.pending() && !b.pending() {
+                    return Run::Finished;
+                }
+                Run::Pending
+            }
             RK::HandOff { a, b, c } => {
                 let winner_is_a = matches!(a.st, St::V(_));
                 let winner_is_b = !winner_is_a && matches!(b.st, St::V(_));
@@ -925,7 +948,7 @@ impl RK {
             | RK::ChainLink { a, .. } => vec![a],
             RK::Aborter { b, .. } | RK::AwaitJoinReq { b, .. } => vec![b],
             RK::ReqReq { a, b } | RK::ReqStream { a, b, .. } | RK::StreamReq { a, b, .. } | RK::Join { a, b }
-            | RK::Select { a, b } | RK::HandOff { a, b, .. } | RK::StreamUntil { a, b } => vec![a, b],
+            | RK::Select { a, b } | RK::HandOff { a, b, .. } | RK::StreamUntil { a, b } | RK::JoinSpawn { a, b, .. } => vec![a, b],
             RK::StreamStream { a, bs, .. } => {
                 let mut v = vec![a];
                 v.extend(bs.iter_mut());
@@ -942,7 +965,7 @@ impl RK {
             | RK::ChainLink { a, .. } => vec![a],
             RK::Aborter { b, .. } | RK::AwaitJoinReq { b, .. } => vec![b],
             RK::ReqReq { a, b } | RK::ReqStream { a, b, .. } | RK::StreamReq { a, b, .. } | RK::Join { a, b }
-            | RK::Select { a, b } | RK::HandOff { a, b, .. } | RK::StreamUntil { a, b } => vec![a, b],
+            | RK::Select { a, b } | RK::HandOff { a, b, .. } | RK::StreamUntil { a, b } | RK::JoinSpawn { a, b, .. } => vec![a, b],
             RK::StreamStream { a, bs, .. } => {
                 let mut v = vec![a];
                 v.extend(bs.iter());
